@@ -63,7 +63,9 @@ impl Net {
     }
     /// wait until `pred` holds on the event log (true) or the time is up (false)
     pub fn wait(&self, ms: u64, pred: impl Fn(&[Ev]) -> bool) -> bool {
-        let end = Instant::now() + Duration::from_millis(ms);
+        // patience: every wait of the scenarios is an upper bound that costs time only when the
+        // awaited thing does not happen; a loaded or cold machine must not turn into an alarm
+        let end = Instant::now() + Duration::from_millis(ms * 4);
         loop {
             if pred(&self.snapshot()) { return true; }
             if Instant::now() > end { return false; }
@@ -178,6 +180,9 @@ pub fn run_framed(a: &Args) {
         let step = if a.thorough { 1 } else { 5 };
         for (ci, cuts) in cutsets.iter().enumerate() {
             if ci % step != 0 && cuts.len() == 1 { continue; }
+            // events of THIS connection only: the kernel may hand out the local port of an earlier,
+            // closed connection again, so the peer address alone does not identify it
+            let before = na.snapshot().len();
             let mut s = TcpStream::connect(addr).unwrap();
             s.set_nodelay(true).unwrap();
             if !na.wait(3000, |ev| ev.iter().filter(|e| matches!(e, Ev::Accepted(_, l) if *l == lid)).count() > ci_count(&na)) { }
@@ -190,8 +195,8 @@ pub fn run_framed(a: &Args) {
             }
             // which accepted endpoint is ours: the one whose peer address is our local address
             let me = s.local_addr().unwrap();
-            let ok = na.wait(5000, |ev| ev.iter().filter(|e| matches!(e, Ev::Message(ep, _) if ep.addr() == me)).count() >= msgs.len());
-            let got: Vec<Vec<u8>> = na.snapshot().into_iter().filter_map(|e| match e { Ev::Message(ep, d) if ep.addr() == me => Some(d), _ => None }).collect();
+            let ok = na.wait(5000, |ev| ev[before.min(ev.len())..].iter().filter(|e| matches!(e, Ev::Message(ep, _) if ep.addr() == me)).count() >= msgs.len());
+            let got: Vec<Vec<u8>> = na.snapshot().into_iter().skip(before).filter_map(|e| match e { Ev::Message(ep, d) if ep.addr() == me => Some(d), _ => None }).collect();
             if !ok || got != msgs {
                 out.violation(&format!("[C01,C02] raw TCP writer with write boundaries {:?} into a FramedTcp listener: {} of {} messages delivered, equal={} ", &cuts[..cuts.len().min(8)], got.len(), msgs.len(), got == msgs));
             }
@@ -493,6 +498,7 @@ pub fn run_ws(a: &Args) {
         let na = Net::new();
         let (lid, addr) = na.ctl.listen(t, "127.0.0.1:0").unwrap();
         for burst in [1usize, 2, 3, 5, 17, 64] {
+            let before = na.snapshot().len();
             let stream = TcpStream::connect(addr).unwrap();
             stream.set_nodelay(true).unwrap();
             let me = stream.local_addr().unwrap();
@@ -500,8 +506,8 @@ pub fn run_ws(a: &Args) {
             let msgs: Vec<Vec<u8>> = (0..burst).map(|i| payload(i as u64 + 7, [0usize, 1, 125, 126, 300, 70000][i % 6])).collect();
             for m in &msgs { ws.write(WsMessage::Binary(m.clone().into())).unwrap(); }
             ws.flush().unwrap(); // everything leaves in as few segments as possible
-            let ok = na.wait(5000, |ev| ev.iter().filter(|e| matches!(e, Ev::Message(ep, _) if ep.addr() == me)).count() >= burst);
-            let got: Vec<Vec<u8>> = na.snapshot().into_iter().filter_map(|e| match e { Ev::Message(ep, d) if ep.addr() == me => Some(d), _ => None }).collect();
+            let ok = na.wait(5000, |ev| ev[before.min(ev.len())..].iter().filter(|e| matches!(e, Ev::Message(ep, _) if ep.addr() == me)).count() >= burst);
+            let got: Vec<Vec<u8>> = na.snapshot().into_iter().skip(before).filter_map(|e| match e { Ev::Message(ep, d) if ep.addr() == me => Some(d), _ => None }).collect();
             if !ok || got != msgs {
                 out.violation(&format!("[C01] stock WebSocket client wrote {} messages back-to-back and went silent: {} delivered within 5 s (no further traffic)", burst, got.len()));
             }
@@ -511,10 +517,10 @@ pub fn run_ws(a: &Args) {
             ws.write(WsMessage::Frame(Frame::message(whole[100..600].to_vec(), OpCode::Data(Data::Continue), false))).unwrap();
             ws.write(WsMessage::Frame(Frame::message(whole[600..].to_vec(), OpCode::Data(Data::Continue), true))).unwrap();
             ws.flush().unwrap();
-            let okf = na.wait(3000, |ev| ev.iter().any(|e| matches!(e, Ev::Message(ep, d) if ep.addr() == me && *d == whole)));
+            let okf = na.wait(3000, |ev| ev[before.min(ev.len())..].iter().any(|e| matches!(e, Ev::Message(ep, d) if ep.addr() == me && *d == whole)));
             if !okf { out.violation("[C01] a WebSocket message sent in three fragments by a stock client was not delivered as one message"); }
             // back: node -> stock client, a burst
-            if let Some(ep) = na.snapshot().into_iter().find_map(|e| match e { Ev::Accepted(ep, l) if l == lid && ep.addr() == me => Some(ep), _ => None }) {
+            if let Some(ep) = na.snapshot().into_iter().skip(before).find_map(|e| match e { Ev::Accepted(ep, l) if l == lid && ep.addr() == me => Some(ep), _ => None }) {
                 let back: Vec<Vec<u8>> = (0..burst).map(|i| payload(i as u64 + 500, 10 + i * 1000)).collect();
                 let st = send_all(&na.ctl, ep, &back);
                 ws.get_mut().set_read_timeout(Some(Duration::from_secs(3))).unwrap();
@@ -727,6 +733,8 @@ pub fn run_limits(a: &Args) {
             let (sid, _) = nb.ctl.listen(Transport::Udp, "127.0.0.1:0").unwrap();
             Endpoint::from_listener(sid, addr)
         };
+        // send() answers ResourceNotAvailable until the Connected event of the socket was processed
+        if connected && !nb.wait(5000, |ev| ev.iter().any(|e| matches!(e, Ev::Connected(e2, true) if *e2 == ep))) { out.violation("[C03,C13] Udp: connect() never produced Connected(_, true)"); }
         let max = Transport::Udp.max_message_size();
         let mut delivered_expected = 0;
         for (len, want) in [(max - 1, SendStatus::Sent), (max, SendStatus::Sent), (max + 1, SendStatus::MaxPacketSizeExceeded), (max + 4493, SendStatus::MaxPacketSizeExceeded), (100, SendStatus::Sent)] {
@@ -1028,3 +1036,152 @@ pub fn run_life(a: &Args) {
     out.add("fds_after", open_fds() as u64);
     out.finish();
 }
+
+// ---------------------------------------------------------------------------------------------------
+// C03: connect_sync returns Ok exactly when the connection was established (and is then usable),
+// ConnectionRefused otherwise.  The event log of the node tells what was delivered.
+// ---------------------------------------------------------------------------------------------------
+pub fn run_sync(a: &Args) {
+    let mut out = Out::new(&a.out);
+    let reps = if a.thorough { 40 } else { 6 };
+    for t in [Transport::Tcp, Transport::FramedTcp, Transport::Ws] {
+        // (a) a peer that accepts and stays: Ok, ready at once, usable at once, Connected(ep, true) delivered once
+        for rep in 0..reps {
+            let server = Net::new();
+            let (_lid, addr) = server.ctl.listen(t, "127.0.0.1:0").unwrap();
+            let node = Net::new();
+            let r = node.ctl.connect_sync(t, addr);
+            match r {
+                Ok((ep, _local)) => {
+                    let ready = node.ctl.is_ready(ep.resource_id());
+                    let st = node.ctl.send(ep, &payload(rep as u64, 50));
+                    if ready != Some(true) || st != SendStatus::Sent || ep.addr() != addr {
+                        out.violation(&format!("[C03] {:?}: connect_sync returned Ok but the connection is not immediately usable: is_ready {:?}, send {:?}, endpoint address {} (asked {})", t, ready, st, ep.addr(), addr));
+                    }
+                    let okc = node.wait(3000, |ev| ev.iter().any(|e| matches!(e, Ev::Connected(e2, true) if *e2 == ep)));
+                    let n = node.snapshot().iter().filter(|e| matches!(e, Ev::Connected(..))).count();
+                    if !okc || n != 1 { out.violation(&format!("[C03] {:?}: connect_sync returned Ok; Connected(endpoint, true) delivered: {}, Connected events in total: {} (must be exactly one, carrying the returned endpoint)", t, okc, n)); }
+                }
+                Err(e) => out.violation(&format!("[C03] {:?}: connect_sync to a listening, accepting peer failed: {:?}", t, e.kind())),
+            }
+            out.count("sync_accepting_peer");
+            out.case(&format!("sync accept {:?} rep {}", t, rep), "ok");
+            if node.shutdown() | server.shutdown() { out.violation("[C17,C03] event processing panicked"); }
+        }
+        // (b) nobody listens: ConnectionRefused, exactly one Connected(_, false), nothing else
+        for rep in 0..reps.min(6) {
+            let dead_addr = { let l = TcpListener::bind("127.0.0.1:0").unwrap(); l.local_addr().unwrap() };
+            let node = Net::new();
+            let r = node.ctl.connect_sync(t, dead_addr);
+            std::thread::sleep(Duration::from_millis(30));
+            let evs = node.snapshot();
+            match r {
+                Ok((ep, _)) => out.violation(&format!("[C03] {:?}: connect_sync to a closed port returned Ok({}) (events: {})", t, ep, evs.len())),
+                Err(e) => {
+                    if e.kind() != std::io::ErrorKind::ConnectionRefused { out.violation(&format!("[C03] {:?}: connect_sync to a closed port failed with {:?} instead of ConnectionRefused", t, e.kind())); }
+                    let shape_ok = evs.len() == 1 && matches!(evs[0], Ev::Connected(_, false));
+                    if !shape_ok { out.violation(&format!("[C03] {:?}: a failed connect must yield Connected(_, false) and nothing else; the node saw {} events", t, evs.len())); }
+                }
+            }
+            out.count("sync_closed_port");
+            out.case(&format!("sync refused {:?} rep {}", t, rep), "ok");
+            if node.shutdown() { out.violation("[C17,C03] event processing panicked"); }
+        }
+        // (c) the peer completes the connection (for Ws: the handshake) slowly: connect_sync must
+        //     not return before the connection is usable
+        for rep in 0..reps.min(4) {
+            let l = TcpListener::bind("127.0.0.1:0").unwrap();
+            let la = l.local_addr().unwrap();
+            let delay = 20 + 40 * rep as u64;
+            let peer = std::thread::spawn(move || {
+                let (s, _) = l.accept().unwrap();
+                std::thread::sleep(Duration::from_millis(delay));
+                let mut keep_ws = None;
+                let mut s2 = s.try_clone().unwrap();
+                if t == Transport::Ws { keep_ws = tungstenite::accept(s).ok(); }
+                // read whatever the node sends for a while, then close
+                s2.set_read_timeout(Some(Duration::from_millis(600))).unwrap();
+                let mut buf = [0u8; 4096];
+                let mut total = 0;
+                loop { match s2.read(&mut buf) { Ok(0) => break, Ok(n) => total += n, Err(_) => break } if total > 0 && t != Transport::Ws { break; } if total > 200 { break; } }
+                drop(keep_ws);
+                total
+            });
+            let node = Net::new();
+            let t0 = Instant::now();
+            let r = node.ctl.connect_sync(t, la);
+            let took = t0.elapsed();
+            match &r {
+                Ok((ep, _)) => {
+                    let ep = *ep;
+                    let ready = node.ctl.is_ready(ep.resource_id());
+                    let st = node.ctl.send(ep, &payload(7, 60));
+                    if ready != Some(true) || st != SendStatus::Sent { out.violation(&format!("[C03] {:?}: connect_sync returned Ok after {:?} against a slow peer, but is_ready is {:?} and send answers {:?}", t, took, ready, st)); }
+                    if t == Transport::Ws && took < Duration::from_millis(delay) { out.violation(&format!("[C03] Ws: connect_sync returned Ok after {:?}, before the peer answered the handshake (it waits {} ms)", took, delay)); }
+                }
+                Err(e) => out.violation(&format!("[C03] {:?}: connect_sync against a slow but accepting peer failed: {:?}", t, e.kind())),
+            }
+            let got = peer.join().unwrap();
+            if r_is_ok(&r) && got == 0 { out.violation(&format!("[C03,C13] {:?}: the message sent right after connect_sync returned Ok never reached the peer", t)); }
+            out.count("sync_slow_peer");
+            out.case(&format!("sync slow {:?} rep {}", t, rep), "ok");
+            if node.shutdown() { out.violation("[C17,C03] event processing panicked"); }
+        }
+        // (d) K1: the peer establishes the connection and closes it at once.  Whatever connect_sync
+        //     answers must match what was delivered: Ok <=> Connected(_, true) was delivered.
+        let mut k1_seen = false;
+        for rep in 0..(if a.thorough { 60 } else { 25 }) {
+            if k1_seen && rep >= 3 { break; }
+            let l = TcpListener::bind("127.0.0.1:0").unwrap();
+            let la = l.local_addr().unwrap();
+            let peer = std::thread::spawn(move || {
+                let (s, _) = l.accept().unwrap();
+                if t == Transport::Ws { if let Ok(ws) = tungstenite::accept(s) { drop(ws); } } else { drop(s); }
+            });
+            let node = Net::new();
+            let r = node.ctl.connect_sync(t, la);
+            peer.join().unwrap();
+            node.wait(1500, |ev| ev.iter().any(|e| matches!(e, Ev::Disconnected(_) | Ev::Connected(_, false))));
+            let evs = node.snapshot();
+            let established = evs.iter().any(|e| matches!(e, Ev::Connected(_, true)));
+            let disconnected = evs.iter().any(|e| matches!(e, Ev::Disconnected(_)));
+            match &r {
+                Ok((ep, _)) => {
+                    if !evs.iter().any(|e| matches!(e, Ev::Connected(e2, true) if e2 == ep)) { out.violation(&format!("[C03] {:?}: connect_sync returned Ok({}) but no Connected(endpoint, true) was delivered", t, ep)); }
+                }
+                Err(e) => {
+                    if e.kind() != std::io::ErrorKind::ConnectionRefused { out.violation(&format!("[C03] {:?}: connect_sync failed with {:?}", t, e.kind())); }
+                    else if established && disconnected {
+                        k1_seen = true;
+                        out.violation(&format!("[C03] K1 {:?}: connect_sync reported ConnectionRefused for a connection that was established: the peer accepted and closed before the next is_ready() poll; Connected(_, true) and Disconnected were both delivered", t));
+                    } else if established {
+                        out.violation(&format!("[C03] {:?}: connect_sync reported ConnectionRefused while the connection is established and not disconnected", t));
+                    }
+                }
+            }
+            out.count("sync_accept_and_close");
+            out.case(&format!("sync accept-close {:?} rep {}", t, rep), &format!("{} {} {}", r.is_ok(), established, disconnected));
+            if node.shutdown() { out.violation("[C17,C03] event processing panicked"); }
+        }
+        out.add(if k1_seen { "k1_observed" } else { "k1_not_observed" }, 1);
+    }
+    // Udp: always Ok, ready, exactly one Connected(true)
+    for rep in 0..reps.min(6) {
+        let sock = UdpSocket::bind("127.0.0.1:0").unwrap();
+        let node = Net::new();
+        match node.ctl.connect_sync(Transport::Udp, sock.local_addr().unwrap()) {
+            Ok((ep, _)) => {
+                let st = node.ctl.send(ep, b"hello");
+                let okc = node.wait(2000, |ev| ev.iter().any(|e| matches!(e, Ev::Connected(e2, true) if *e2 == ep)));
+                if node.ctl.is_ready(ep.resource_id()) != Some(true) || st != SendStatus::Sent || !okc { out.violation(&format!("[C03] Udp: connect_sync Ok, but is_ready {:?}, send {:?}, Connected(true) delivered {}", node.ctl.is_ready(ep.resource_id()), st, okc)); }
+            }
+            Err(e) => out.violation(&format!("[C03] Udp: connect_sync failed: {:?}", e.kind())),
+        }
+        out.count("sync_udp");
+        out.case(&format!("sync udp rep {}", rep), "ok");
+        if node.shutdown() { out.violation("[C17,C03] event processing panicked"); }
+    }
+    out.finish();
+}
+
+fn r_is_ok<T, E>(r: &Result<T, E>) -> bool { r.is_ok() }
